@@ -266,19 +266,21 @@ Print Assumptions C02_transpose_pair_pass_sound.
         renaming of the kept nodes; simulation with the invariant "old value of a region output == Transpose p (new value)",
         ElemCommute.pwn_transpose node by node, the rank bound from T2's acceptance along consumer paths).  Both need the
         guards added to /repo after this proof attempt exposed that, with a self-inverse perm, a Transpose can be an input
-        and a consumer of the region at once (fe64f21 and the Add-chain repair).  World hypothesis besides SSA and true
-        one-element flags: uniform_operands (no genuine broadcasting between two multi-element operands of an elementwise
-        node in the run at hand).  The residual action kinds outside proved_kind_all are listed at its definition. *)
-From J2O Require Import TransposeRegion.
+        and a consumer of the region at once (fe64f21 and the Add-chain repair).  No world hypothesis besides SSA and true
+        one-element flags: the pointwise operators are read with GENERAL numpy broadcasting (ElemBroadcast.v: [pwg],
+        [sem_pointwise_spec_g]; two transposed operands of a region member may broadcast against each other), which implies
+        the restricted reading [sem_pointwise_spec_a] the chain folds use (ElemBroadcast.spec_g_a).  The residual action
+        kinds outside proved_kind_all are listed at its definition. *)
+From J2O Require Import ElemBroadcast TransposeRegion.
 
 Theorem C02_transpose_pair_action_sound_all :
   forall (A : Type) (sem : string -> list nat -> list (tensor A) -> option (list (tensor A))),
   (forall op ats vs vs' o, Forall2 teq vs vs' -> sem op ats vs = Some o -> exists o', sem op ats vs' = Some o' /\ Forall2 teq o o') ->
   sem_transpose_spec A sem op_type ->
-  forall F : string -> list nat -> list A -> A, sem_pointwise_spec_a A sem op_type F ->
+  forall F : string -> list nat -> list A -> A, sem_pointwise_spec_g A sem op_type F ->
   forall Fcl : list nat -> tensor A -> A -> A, sem_castlike_spec_n A sem op_type Fcl -> castlike_type_only A Fcl ->
-  sem_accepts_spec_a A sem op_type ->
-  forall g act e, tadmissible_u A sem g e -> decide_step g = Some act -> proved_kind_all g act = true ->
+  sem_accepts_spec_g A sem op_type ->
+  forall g act e, tadmissible A sem g e -> decide_step g = Some act -> proved_kind_all g act = true ->
     refines (tensor A) teq sem (tg_graph g) (tg_graph (apply_taction g act)) e.
 Proof. exact transpose_pair_action_sound_all. Qed.
 Print Assumptions C02_transpose_pair_action_sound_all.
@@ -287,16 +289,16 @@ Theorem C02_transpose_pair_pass_sound_all :
   forall (A : Type) (sem : string -> list nat -> list (tensor A) -> option (list (tensor A))),
   (forall op ats vs vs' o, Forall2 teq vs vs' -> sem op ats vs = Some o -> exists o', sem op ats vs' = Some o' /\ Forall2 teq o o') ->
   sem_transpose_spec A sem op_type ->
-  forall F : string -> list nat -> list A -> A, sem_pointwise_spec_a A sem op_type F ->
+  forall F : string -> list nat -> list A -> A, sem_pointwise_spec_g A sem op_type F ->
   forall Fcl : list nat -> tensor A -> A -> A, sem_castlike_spec_n A sem op_type Fcl -> castlike_type_only A Fcl ->
-  sem_accepts_spec_a A sem op_type ->
+  sem_accepts_spec_g A sem op_type ->
   forall fuel g e, tadmissible_along_all A sem fuel g e ->
     refines (tensor A) teq sem (tg_graph g) (tg_graph (transpose_pair_pass fuel g)) e.
 Proof. exact transpose_pair_pass_sound_all. Qed.
 Print Assumptions C02_transpose_pair_pass_sound_all.
 
 (* ---- both passes, for every graph that is admissible WHEN THE PASS STARTS: what the pass reads (declared dims, one-element
-        flags, payload ranks; for the transpose pass the one-element flags and the uniform-operands property) is preserved by
+        flags, payload ranks; for the transpose pass the one-element flags) is preserved by
         every rewrite (final-environment form of the simulation, ChainSim.sim_env), so nothing semantic is assumed of the
         intermediate graphs.  For the reshape pass this needed the repair of the stale-annotation defect found on the way
         (_refresh_elementwise_output_shape(rewired=True) clears an annotation it cannot recompute) and the soundness of
@@ -331,11 +333,11 @@ Theorem C02_transpose_pair_action_admissible :
   forall (A : Type) (sem : string -> list nat -> list (tensor A) -> option (list (tensor A))),
   (forall op ats vs vs' o, Forall2 teq vs vs' -> sem op ats vs = Some o -> exists o', sem op ats vs' = Some o' /\ Forall2 teq o o') ->
   sem_transpose_spec A sem op_type ->
-  forall F : string -> list nat -> list A -> A, sem_pointwise_spec_a A sem op_type F ->
+  forall F : string -> list nat -> list A -> A, sem_pointwise_spec_g A sem op_type F ->
   forall Fcl : list nat -> tensor A -> A -> A, sem_castlike_spec_n A sem op_type Fcl -> castlike_type_only A Fcl ->
-  sem_accepts_spec_a A sem op_type ->
-  forall g act e ef, tadmissible_u A sem g e -> eval (tensor A) sem (tg_nodes g) e = Some ef ->
-    decide_step g = Some act -> proved_kind_all g act = true -> tadmissible_u A sem (apply_taction g act) e.
+  sem_accepts_spec_g A sem op_type ->
+  forall g act e ef, tadmissible A sem g e -> eval (tensor A) sem (tg_nodes g) e = Some ef ->
+    decide_step g = Some act -> proved_kind_all g act = true -> tadmissible A sem (apply_taction g act) e.
 Proof. exact transpose_pair_action_admissible. Qed.
 Print Assumptions C02_transpose_pair_action_admissible.
 
@@ -343,10 +345,10 @@ Theorem C02_transpose_pair_pass_sound_start :
   forall (A : Type) (sem : string -> list nat -> list (tensor A) -> option (list (tensor A))),
   (forall op ats vs vs' o, Forall2 teq vs vs' -> sem op ats vs = Some o -> exists o', sem op ats vs' = Some o' /\ Forall2 teq o o') ->
   sem_transpose_spec A sem op_type ->
-  forall F : string -> list nat -> list A -> A, sem_pointwise_spec_a A sem op_type F ->
+  forall F : string -> list nat -> list A -> A, sem_pointwise_spec_g A sem op_type F ->
   forall Fcl : list nat -> tensor A -> A -> A, sem_castlike_spec_n A sem op_type Fcl -> castlike_type_only A Fcl ->
-  sem_accepts_spec_a A sem op_type ->
-  forall fuel g e, tadmissible_u A sem g e -> kinds_along fuel g = true ->
+  sem_accepts_spec_g A sem op_type ->
+  forall fuel g e, tadmissible A sem g e -> kinds_along fuel g = true ->
     refines (tensor A) teq sem (tg_graph g) (tg_graph (transpose_pair_pass fuel g)) e.
 Proof. exact transpose_pair_pass_sound_start. Qed.
 Print Assumptions C02_transpose_pair_pass_sound_start.
@@ -360,10 +362,78 @@ Theorem C02_transpose_add_forest_pass_sound :
   forall (A : Type) (sem : string -> list nat -> list (tensor A) -> option (list (tensor A))),
   (forall op ats vs vs' o, Forall2 teq vs vs' -> sem op ats vs = Some o -> exists o', sem op ats vs' = Some o' /\ Forall2 teq o o') ->
   sem_transpose_spec A sem op_type ->
-  forall F : string -> list nat -> list A -> A, sem_pointwise_spec_a A sem op_type F ->
+  forall F : string -> list nat -> list A -> A, sem_pointwise_spec_g A sem op_type F ->
   forall Fcl : list nat -> tensor A -> A -> A, sem_castlike_spec_n A sem op_type Fcl -> castlike_type_only A Fcl ->
-  sem_accepts_spec_a A sem op_type ->
-  forall fuel g e, tadmissible_u A sem g e ->
+  sem_accepts_spec_g A sem op_type ->
+  forall fuel g e, tadmissible A sem g e ->
     refines (tensor A) teq sem (tg_graph g) (tg_graph (addforest_pass fuel g)) e.
 Proof. exact addforest_pass_sound. Qed.
 Print Assumptions C02_transpose_add_forest_pass_sound.
+
+(* ---- a sixth pass: remove_redundant_transpose_reduce_ir (model TransposeReducePass.v, soundness TransposeReduceSound.v).
+        ReduceMean (keepdims = 1) is an ABSTRACT axis-indexed operator [reduce S x] with four laws [reduce_laws]: it reads S as
+        a set, respects tensor equality, keeps the rank, and
+             reduce S (transpose p x) == transpose p (reduce p[S] x).
+        [red_sem] is the ONNX reading of the axes (negative axes count from the end, out-of-range axes are rejected,
+        no / empty axes = all axes).  First statement: the arithmetic of the pass (normalise against len(perm1), map through
+        perm1, sort) is exactly that law's instance, for every rank, perm, axes list (attribute or constant input, also
+        absent / empty).  Second and third: one rewrite, and the whole pass, for every graph admissible when the pass starts;
+        the initializer the pass creates for the input form of the axes is a value added to the environment ([env_ext]: the
+        final environment differs from the given one only where the rewritten graph's constant annotation says what the
+        value is). *)
+From J2O Require Import TransposeReducePass TransposeReduceSound.
+Theorem C02_transpose_reduce_axes_law :
+  forall (A : Type) (reduce : list nat -> tensor A -> tensor A), reduce_laws A reduce ->
+  forall p x oax y, is_perm p -> length p = length (shape x) -> red_sem A reduce oax (transpose p x) = Some y ->
+    match oax with
+    | None => exists y', red_sem A reduce None x = Some y' /\ teq y (transpose p y') /\ length (shape y') = length p
+    | Some ax => exists l y', map_axes p ax = Some l /\ red_sem A reduce (Some (map Z.of_nat (sort_nat l))) x = Some y' /\
+                              teq y (transpose p y') /\ length (shape y') = length p
+    end.
+Proof. exact reduce_axes_law. Qed.
+Print Assumptions C02_transpose_reduce_axes_law.
+
+Theorem C02_transpose_reduce_action_sound :
+  forall (A : Type) (sem : string -> list nat -> list (tensor A) -> option (list (tensor A))),
+  (forall op ats vs vs' o, Forall2 teq vs vs' -> sem op ats vs = Some o -> exists o', sem op ats vs' = Some o' /\ Forall2 teq o o') ->
+  sem_transpose_spec A sem op_type ->
+  forall reduce, reduce_laws A reduce ->
+  forall denoteZ, (forall v v', teq v v' -> denoteZ v = denoteZ v') -> sem_reducemean_spec A sem op_type denoteZ reduce ->
+  forall mkZ : list Z -> tensor A, (forall l, denoteZ (mkZ l) = Some l) ->
+  forall g T2 a e ef, radm A sem denoteZ g e -> In T2 (rt_nodes g) -> decide_tr g T2 = Some a ->
+    eval (tensor A) sem (rt_nodes g) e = Some ef ->
+    radm A sem denoteZ (apply_tr g a) (ext_env A mkZ g a e) /\
+    (forall o, run (tensor A) sem (rt_graph g) e = Some o ->
+       exists o', run (tensor A) sem (rt_graph (apply_tr g a)) (ext_env A mkZ g a e) = Some o' /\ Forall2 teq o o').
+Proof. exact transpose_reduce_action_sound. Qed.
+Print Assumptions C02_transpose_reduce_action_sound.
+
+Theorem C02_transpose_reduce_pass_sound :
+  forall (A : Type) (sem : string -> list nat -> list (tensor A) -> option (list (tensor A))),
+  (forall op ats vs vs' o, Forall2 teq vs vs' -> sem op ats vs = Some o -> exists o', sem op ats vs' = Some o' /\ Forall2 teq o o') ->
+  sem_transpose_spec A sem op_type ->
+  forall reduce, reduce_laws A reduce ->
+  forall denoteZ, (forall v v', teq v v' -> denoteZ v = denoteZ v') -> sem_reducemean_spec A sem op_type denoteZ reduce ->
+  forall mkZ : list Z -> tensor A, (forall l, denoteZ (mkZ l) = Some l) ->
+  forall fuel g e, radm A sem denoteZ g e ->
+    forall o, run (tensor A) sem (rt_graph g) e = Some o ->
+    exists e' o', env_ext A denoteZ (tr_pass fuel g) e e' /\
+                  run (tensor A) sem (rt_graph (tr_pass fuel g)) e' = Some o' /\ Forall2 teq o o'.
+Proof. exact transpose_reduce_pass_sound. Qed.
+Print Assumptions C02_transpose_reduce_pass_sound.
+
+(* ---- the tensor algebra under the region folds: pointwise operators with general numpy broadcasting [pwg] commute with
+        Transpose when every operand is transposed by the same permutation or is a one-element tensor, also when transposed
+        operands broadcast against each other; on operand lists without genuine broadcasting [pwg] is [pwn] *)
+Theorem C02_pointwise_broadcast_commutes_with_transpose :
+  forall (A : Type) (F : list A -> A) (p : list nat) (vs vs' : list (tensor A)), is_perm p ->
+    Forall2 (trel p) vs vs' -> Exists (fun v => length (shape v) = length p) vs ->
+    Forall (fun v => length (shape v) <= length p) vs -> bcast_ok vs ->
+    bcast_ok vs' /\ teq (pwg F vs) (transpose p (pwg F vs')) /\ length (shape (pwg F vs')) = length p.
+Proof. exact @pwg_transpose. Qed.
+Print Assumptions C02_pointwise_broadcast_commutes_with_transpose.
+
+Theorem C02_broadcast_pointwise_restricts_to_pwn :
+  forall (A : Type) (F : list A -> A) (vs : list (tensor A)), operands_ok vs -> bcast_ok vs /\ teq (pwg F vs) (pwn F vs).
+Proof. exact @pwg_restricts. Qed.
+Print Assumptions C02_broadcast_pointwise_restricts_to_pwn.
